@@ -105,9 +105,11 @@ pub enum TokenType {
 
     // Separate the single byte and double byte representations
     // because those have different valid prefixes.
-    #[regex(r"'[^']*'")]
+    // '$' takes the character after it with it, so an escaped quote
+    // ($' or $") does not end the string
+    #[regex(r"'(?:[^'$]|\$[\s\S])*'")]
     SingleByteString,
-    #[regex("\"[^\"]*\"")]
+    #[regex("\"(?:[^\"$]|\\$[\\s\\S])*\"")]
     DoubleByteString,
 
     // B.1.1 Letters, digits and identifier
